@@ -4,19 +4,29 @@ from .. import core
 from ..core import Run, ToolError
 from . import c02, c19
 
-TIERS = {"quick": dict(per_set=1, maxalts=3, sim=dict(num=40, workers=4, maxnodes=30, minnodes=12)),
-         "thorough": dict(per_set=6, maxalts=4, sim=dict(num=400, workers=16, maxnodes=45, minnodes=16))}
+TIERS = {"quick": dict(stride=6, per_set=1, maxalts=3, sim=dict(num=40, workers=4, maxnodes=30, minnodes=12)),
+         "thorough": dict(stride=1, per_set=3, maxalts=4, sim=dict(num=60, workers=8, maxnodes=40, minnodes=14))}
 
-CARGO_TOML = """[package]
-name = "c01scratch"
+WORKSPACE_TOML = """[workspace]
+members = ["main", "m/*", "q/*"]
+resolver = "2"
+"""
+CHUNKS = 14
+
+def package_toml(name):
+    return f"""[package]
+name = "{name}"
 version = "0.1.0"
 edition = "2021"
 publish = false
-[workspace]
 [dependencies]
 rasn = "0.27"
 lazy_static = "1"
 """
+
+
+STUBS = ("#![allow(warnings)]\npub mod verif_a { pub struct Alpha; }\npub mod verif_b { pub struct Anything; }\n"
+         "pub mod verif_c { pub mod inner { pub struct Beta; pub struct Gamma; } }\n")
 
 
 def trace_cfg(run):
@@ -26,12 +36,12 @@ def trace_cfg(run):
     return cfg
 
 
-def cargo_check(crate):
-    """rustc's verdict per file of the scratch crate: {file: [error code + message, ...]}"""
+def cargo_check(ws):
+    """rustc's verdict per case file of the scratch workspace: {file: [error code + message @ item, ...]}"""
     t = time.time()
-    p = subprocess.run(["cargo", "check", "--offline", "--message-format=json", "--lib"], cwd=crate, env=core.clean_env(),
+    p = subprocess.run(["cargo", "check", "--offline", "--workspace", "--keep-going", "--message-format=json", "--lib"], cwd=ws, env=core.clean_env(),
                        stdout=subprocess.PIPE, stderr=subprocess.PIPE, text=True, timeout=7200)
-    errors, other = {}, []
+    errors = {}
     for line in p.stdout.splitlines():
         try:
             m = json.loads(line)
@@ -42,52 +52,137 @@ def cargo_check(crate):
         msg = m["message"]
         code = (msg.get("code") or {}).get("code") or ""
         spans = [s for s in msg.get("spans", []) if s.get("is_primary")] or msg.get("spans", [])
-        files = {os.path.basename(s["file_name"]) for s in spans}
         text = f"{code} {msg.get('message', '')}"[:300]
-        if not files:
-            other.append(text)
         for sp in spans[:1]:
+            path = os.path.join(ws, sp["file_name"])
+            if not os.path.exists(path):
+                path = os.path.join(os.path.dirname(m.get("target", {}).get("src_path", "")), os.path.basename(sp["file_name"]))
             # the item the diagnostic is about: the line of the case file (one item per line)
             item = ""
             try:
-                with open(os.path.join(crate, sp["file_name"])) as fh:
-                    for n, line in enumerate(fh, 1):
+                with open(path) as fh:
+                    for n, line2 in enumerate(fh, 1):
                         if n == sp["line_start"]:
-                            item = " ".join(line.split())
+                            item = " ".join(line2.split())
                             break
             except OSError:
                 pass
-            errors.setdefault(os.path.basename(sp["file_name"]), []).append(text + " @ " + item[:3000])
-    core.log(f"[cargo] check of the scratch crate {time.time()-t:.1f}s rc={p.returncode}, {sum(len(v) for v in errors.values())} errors in {len(errors)} files")
-    if p.returncode != 0 and not errors and not any("aborting" in o or "could not compile" in o for o in other):
+            errors.setdefault(os.path.basename(sp["file_name"]), []).append(text + " @ " + item[:40000])
+    core.log(f"[cargo] check of the scratch workspace {time.time()-t:.1f}s rc={p.returncode}, {sum(len(v) for v in errors.values())} errors in {len(errors)} files")
+    if p.returncode != 0 and not errors:
         core.log(p.stderr[-3000:])
         raise ToolError("cargo check failed without a diagnostic that names a file")
-    return errors, other
+    return errors
 
 
-def drive_and_validate(run, sets, cfgs, pats, per_set, shards):
-    crate = run.path("crate")
-    shutil.rmtree(crate, ignore_errors=True)
-    os.makedirs(os.path.join(crate, "src"))
-    os.makedirs(os.path.join(crate, ".cargo"))
-    open(os.path.join(crate, "Cargo.toml"), "w").write(CARGO_TOML)
-    shutil.copy(os.path.join(core.REPO, "Cargo.lock"), os.path.join(crate, "Cargo.lock"))
-    open(os.path.join(crate, ".cargo", "config.toml"), "w").write(f'[net]\noffline = true\n[build]\ntarget-dir = "{os.path.join(core.ROOT, "work", "target-probe")}"\n')
+CORPUS = os.path.join(core.REPO, "rasn-compiler-tests", "tests", "modules")
+MAX_ISOLATED = {"quick": 24, "thorough": 96}
+
+
+def drive_and_validate(run, sets, cfgs, pats, per_set, shards, corpus_stride=6, isolated=24):
+    ws = run.path("crate")
+    shutil.rmtree(ws, ignore_errors=True)
+    main = os.path.join(ws, "main")
+    os.makedirs(os.path.join(main, "src"))
+    os.makedirs(os.path.join(ws, ".cargo"))
+    os.makedirs(os.path.join(ws, "q"))
+    open(os.path.join(ws, "Cargo.toml"), "w").write(WORKSPACE_TOML)
+    open(os.path.join(main, "Cargo.toml"), "w").write(package_toml("c01main"))
+    shutil.copy(os.path.join(core.REPO, "Cargo.lock"), os.path.join(ws, "Cargo.lock"))
+    open(os.path.join(ws, ".cargo", "config.toml"), "w").write(f'[net]\noffline = true\n[build]\ntarget-dir = "{os.path.join(core.ROOT, "work", "target-probe")}"\n')
     paths = {k: run.path(k + ".ndjson") for k in ("sets", "cfgs", "patterns", "trace")}
     core.write_ndjson(paths["sets"], sets)
     core.write_ndjson(paths["cfgs"], cfgs)
     core.write_ndjson(paths["patterns"], pats)
     plan_p = run.path("plan.json")
     core.vharness(["c01", "--sets", paths["sets"], "--cfgs", paths["cfgs"], "--patterns", paths["patterns"], "--per-set", str(per_set),
-                   "--crate", crate, "--plan", plan_p], threads=12)
+                   "--crate", main, "--plan", plan_p, "--corpus", CORPUS, "--corpus-stride", str(corpus_stride)], threads=12)
     plan = json.load(open(plan_p))
-    errors, other = cargo_check(crate)
+    known = [k for k in core.load_known() if k["property"] == "C01" and k["status"] == "known" and "signature" in k]
+    sigs = [(k["deviation"], re.compile(k["signature"]["error"]), re.compile(k["signature"]["item"])) for k in known]
+    # Findings whose derive output does not even parse stop rustc at the first such file.  Files that contain an item with
+    # the shape of such a finding are kept out of the main crate; a sample of them is checked alone, one crate per file.
+    fatal = [(k["deviation"], re.compile(k["signature"]["item"])) for k in known if k.get("stops_rustc")]
+    quarantined, alone = {}, {}
+    for e in plan:
+        if not e["file"]:
+            continue
+        text = open(os.path.join(main, "src", e["file"])).read()
+        hit = next((d for d, ir in fatal if any(ir.search(" ".join(l.split())) for l in text.split("\n"))), None)
+        if hit:
+            quarantined[e["file"]] = hit
+    lib_path = os.path.join(main, "src", "lib.rs")
+
+    def drop_from_main(files):
+        keep, skip_next = [], False
+        for ln in open(lib_path).read().split("\n"):
+            if skip_next:
+                skip_next = False
+                continue
+            m = re.match(r'#\[path = "(case_\d+\.rs)"\]', ln)
+            if m and m.group(1) in files:
+                skip_next = True
+                continue
+            keep.append(ln)
+        open(lib_path, "w").write("\n".join(keep))
+
+    drop_from_main(quarantined)
+    for k, f in enumerate(sorted(quarantined)[:: max(1, len(quarantined) // isolated)][:isolated]):
+        d = os.path.join(ws, "q", f"q{k}")
+        os.makedirs(os.path.join(d, "src"))
+        open(os.path.join(d, "Cargo.toml"), "w").write(package_toml(f"c01q{k}"))
+        shutil.move(os.path.join(main, "src", f), os.path.join(d, "src", f))
+        open(os.path.join(d, "src", "lib.rs"), "w").write(STUBS + f'#[path = "{f}"]\npub mod {f[:-3]};\n')
+        alone[f] = d
+    # the remaining files are dealt round-robin to CHUNKS crates, so that rustc runs in parallel and an error that
+    # stops rustc hides the rest of one chunk only
+    rest = [e["file"] for e in plan if e["file"] and e["file"] not in quarantined]
+    os.makedirs(os.path.join(ws, "m"))
+    chunk_of = {}
+    for k in range(CHUNKS):
+        mine = rest[k::CHUNKS]
+        if not mine:
+            continue
+        d = os.path.join(ws, "m", f"m{k}")
+        os.makedirs(os.path.join(d, "src"))
+        open(os.path.join(d, "Cargo.toml"), "w").write(package_toml(f"c01m{k}"))
+        for f in mine:
+            shutil.move(os.path.join(main, "src", f), os.path.join(d, "src", f))
+            chunk_of[f] = d
+    open(lib_path, "w").write(STUBS)
+
+    def write_chunk_libs(dropped):
+        for k in range(CHUNKS):
+            d = os.path.join(ws, "m", f"m{k}")
+            if os.path.isdir(d):
+                mine = [f for f in rest[k::CHUNKS] if f not in dropped]
+                open(os.path.join(d, "src", "lib.rs"), "w").write(STUBS + "".join(f'#[path = "{f}"]\npub mod {f[:-3]};\n' for f in mine))
+
+    # errors are collected until a round adds nothing (an unknown rustc-stopping error would hide the rest of its chunk)
+    errors = {}
+    write_chunk_libs(errors)
+    for rnd in range(8):
+        errs = cargo_check(ws)
+        # an error reported against a crate root is attributed to the case whose module it names
+        for f in [f for f in errs if not f.startswith("case_")]:
+            for msg in errs.pop(f):
+                names = set(re.findall(r"`(?:\w+::)*(\w+)::\w+`", msg))
+                owners = [c for c, d in chunk_of.items() if c not in errors and any(re.search(rf"^pub mod {n} \{{", open(os.path.join(d, "src", c)).read(), re.M) for n in names)] if names else []
+                if not owners:
+                    raise ToolError(f"rustc reports an error outside the case files that names no case: {msg[:300]}")
+                for c in owners[:1]:
+                    errs.setdefault(c, []).append(msg)
+        new = {f: v for f, v in errs.items() if f not in errors}
+        errors.update(new)
+        if not [f for f in new if f not in alone]:
+            break
+        write_chunk_libs(errors)
+    else:
+        raise ToolError("cargo check did not reach a fixpoint in 8 rounds")
     events = []
-    sigs = [(k["deviation"], re.compile(k["signature"]["error"]), re.compile(k["signature"]["item"])) for k in core.load_known()
-            if k["property"] == "C01" and k["status"] == "known" and "signature" in k]
     for e in plan:
         errs = errors.get(e["file"], []) if e["file"] else []
-        explained, unexplained, failed_types, pending = set(), [], set(), []
+        explained, failed_types, pending = set(), set(), []
         for m in errs:
             msg, _, item = m.partition(" @ ")
             hit = next((d for d, er, ir in sigs if er.search(msg) and ir.search(item)), None)
@@ -106,17 +201,14 @@ def drive_and_validate(run, sets, cfgs, pats, per_set, shards):
                     pending.remove((msg, item))
                     failed_types.update(re.findall(r"pub (?:struct|enum) (\w+)", item))
                     changed = True
-        unexplained = [f"{m} @ {i}" for m, i in pending]
+        e["submitted"] = bool(e["file"]) and (e["file"] not in quarantined or e["file"] in alone)
+        e["quarantined_for"] = quarantined.get(e["file"], "")
         e["rustc_errors"] = [x[:500] for x in errs[:6]]
         e["rustc_error_count"] = len(errs)
         e["rustc_ok"] = not errs
         e["explained_by"] = sorted(explained)
-        e["unexplained"] = [x[:600] for x in unexplained[:4]]
+        e["unexplained"] = [f"{m} @ {i}"[:600] for m, i in pending[:4]]
         events.append(e)
-    # an error that names no case file (e.g. in lib.rs) cannot be attributed: the run is not trustworthy
-    stray = [f for f in errors if not f.startswith("case_")]
-    if stray:
-        raise ToolError(f"rustc reports errors outside the case files: {stray} {errors[stray[0]][:2]}")
     core.write_ndjson(paths["trace"], events)
     consumed, verdicts = core.validate_trace("trace/Trace_C01.tla", trace_cfg(run), paths["trace"], shards=shards, timeout=3000)
     run.judge(events, verdicts, consumed)
@@ -129,17 +221,18 @@ def check(tier):
     cfgs, pats = c19.model(run, t["maxalts"])
     sets = c02.generate(run, tier, **t["sim"])
     run.case_of = lambda ev: {"cfg": ev.get("cfg"), "input": ev.get("input"), "asn": ev.get("asn")}
-    events = drive_and_validate(run, sets, cfgs, pats, t["per_set"], shards=2 if tier == "quick" else 8)
-    checked = [e for e in events if e["file"]]
+    events = drive_and_validate(run, sets, cfgs, pats, t["per_set"], shards=2 if tier == "quick" else 8, corpus_stride=t["stride"], isolated=MAX_ISOLATED[tier])
+    checked = [e for e in events if e["file"] and e["submitted"]]
+    run.cov["not_submitted_shape_of_a_rustc_stopping_finding"] = len([e for e in events if e["file"] and not e["submitted"]])
     run.cov["evaluations"] = len(events)
     run.cov["type_checked"] = len(checked)
     run.cov["types_type_checked"] = sum(e["types"] for e in checked)
     run.cov["skipped_with_warnings_or_err"] = len([e for e in events if e["status"] != "ok"])
-    run.cov["by_input"] = {k: len([e for e in checked if e["input"] == k]) for k in ("generated", "patterns", "widths")}
+    run.cov["by_input"] = {k: len([e for e in checked if e["input"] == k]) for k in ("generated", "patterns", "widths", "corpus")}
     run.cov["distinct_nontrivial"] = len({(json.dumps(e["cfg"], sort_keys=True), e["asn"]) for e in checked})
     run.cov["exhaustive"] = False
     run.cov["rule"] = ("module sets from Notation.tla (TLC simulation), the CHOICE payload pattern module and an integer width boundary module are "
-                       "compiled under configurations from Options.tla; every warning-free output is written as one file of a scratch crate depending "
+                       "compiled under configurations from Options.tla, stand-alone real-world modules of the repository under the default configuration; every warning-free output is written as one file of a scratch crate depending "
                        "on rasn 0.27 and lazy_static only, and `cargo check` decides; non-trivial = distinct (configuration, input) that was type-checked")
     run.cov["samples"] = [{"cfg": e["cfg"], "input": e["input"], "types": e["types"], "rustc_ok": e["rustc_ok"]} for e in checked[:: max(1, len(checked) // 5)][:5]]
     run.assumptions = ["rustc's verdict is attributed to a case by the file a diagnostic's primary span lies in",
